@@ -257,6 +257,8 @@ theorem addModel_tables (s : Scene) (w w' : W) (md : Model) (hm : MatT (fun i =>
         split at h
         · cases h
         · rename_i r hr
+          have hgate := gate_ok s w md _ r hr
+          have hr := hgate.2
           have hk := addModelMaterial_keepW s w md r hr
           have hm1 : MatT (fun i => s.texHeap[i]?) r.1 := by
             unfold addModelMaterial at hr
@@ -270,7 +272,7 @@ theorem addModel_tables (s : Scene) (w w' : W) (md : Model) (hm : MatT (fun i =>
                   injection hr with hr; subst hr
                   exact (addMaterial_dedup _ _ _ _ h' hm).1
           have hx1 : MeshT r.1 := ⟨by rw [hk.2.2.1]; exact hx.func, by rw [hk.2.2.1]; exact hx.inj, by rw [hk.2.2.1, hk.1]; exact hx.lt⟩
-          have hx2 := (addMesh_dedup r.1 md.name id m r.2 hx1 hpc).1
+          have hx2 := (addMesh_dedup r.1 md.name id m r.2 hx1 (skipped_false hpc).1).1
           obtain ⟨t1, t2⟩ := addMesh_tables r.1 md.name id m r.2
           have hm2 : MatT (fun i => s.texHeap[i]?) (addMesh r.1 md.name id m r.2).1 :=
             ⟨by rw [t1, t2]; exact hm1.len, by rw [t1]; exact hm1.idx, by rw [t1]; exact hm1.distinct⟩
